@@ -1378,6 +1378,9 @@ static void oracleCase(vh::Out &out, uint64_t seed, long long k, bool bigger, co
 int main(int argc, char **argv) {
   vh::Args a = vh::parseArgs(argc, argv);
   vh::Out out(a.out);
+  // the streams (a), (a''), grid and rounding call the real code in-process: a sanitizer report or a failed assertion
+  // there becomes an oracle failure naming the case (replayed by its id and the seed)
+  vh::installCrashHandler(&out);
   out.rule = "(a) spreadCoordX/Y on generated grids/views/bin assignments (exact: power-of-two bin demand, rationals must be equal; "
              "approx: |float - rat| <= 2^-18(|lo|+|hi|+1)); non-trivial = a bin with >= 2 cells, distinct by op text. "
              "(a'') spreadCoordX/Y against the binary32 model SpreadF, every float compared exactly (families small/mixed/drift/witness, "
@@ -1419,6 +1422,7 @@ int main(int argc, char **argv) {
     out.ops << "case " << id << "\n";
     out.impl << "case " << id << "\n";
     out.evaluations++;
+    vh::setCase(id, "in-process case " + id + " of seed " + std::to_string(a.seed) + " (regenerated from its id)");
     out.beginCase();
     spreadCase(out, id, g, exact);
     out.endCase();
@@ -1433,6 +1437,7 @@ int main(int argc, char **argv) {
     out.ops << "case " << id << "\n";
     out.impl << "case " << id << "\n";
     out.evaluations++;
+    vh::setCase(id, "in-process case " + id + " of seed " + std::to_string(a.seed) + " (regenerated from its id)");
     out.beginCase();
     spreadFCase(out, id, i, g);
     out.endCase();
@@ -1446,6 +1451,7 @@ int main(int argc, char **argv) {
     out.ops << "case " << id << "\n";
     out.impl << "case " << id << "\n";
     out.evaluations++;
+    vh::setCase(id, "in-process case " + id + " of seed " + std::to_string(a.seed) + " (regenerated from its id)");
     out.beginCase();
     gridCase(out, id, g);
     out.endCase();
@@ -1459,6 +1465,7 @@ int main(int argc, char **argv) {
     out.ops << "case " << id << "\n";
     out.impl << "case " << id << "\n";
     out.evaluations++;
+    vh::setCase("r" + std::to_string(i), "in-process case r" + std::to_string(i) + " of seed " + std::to_string(a.seed) + " (regenerated from its id)");
     roundingCase(out, g);
   }
   // (b) corpus witnesses first
